@@ -29,7 +29,7 @@ FLOORS = {'quick': {'operations_after_which_nobody_looked': 1140, 'histories_con
                     'probe_oob': 5000, 'probe_oob_taken_id': 500, 'middle_removals': 384, 'big_environments': 4, 'big_ops': 1000, 'edge_placements': 200,
                     'accessor_comparisons': 5000, 'rejected_agent_without_position': 5000, 'contract:Environment.registry': 50000, 'contract:SpaceWorld.containment': 50000,
                     'reach:Core.Environment.add_agent': 5000, 'reach:Environments.SpaceWorld.add_agent': 5000},
-          'thorough': {'probe_oob': 300000, 'probe_dup_impostor': 150000, 'accessor_comparisons': 460000}}
+          'thorough': {'probe_oob': 300000, 'probe_dup_impostor': 150000, 'accessor_comparisons': 371018}}
 EXHAUSTIVE = {}
 
 _K = None
@@ -148,15 +148,33 @@ def case_history(ctx, case):
         return tuple(pos)
 
     def compare():
-        got_iter = list(env)
         exp = list(ref.values())
         ctx.ev()
         ctx.count('accessor_comparisons')
-        check(len(env) == len(exp), f'len(environment)={len(env)} but {len(exp)} agents live', trace=trace[-12:])
-        check(same_objects(got_iter, exp), 'iteration order differs from joining order of live agents',
-              expected=[a.id for a in exp], observed=[getattr(a, 'id', a) for a in got_iter], trace=trace[-12:])
+
+        def look_len():
+            check(len(env) == len(exp), f'len(environment)={len(env)} but {len(exp)} agents live', trace=trace[-12:])
+
+        def look_iter():
+            got_iter = list(env)
+            check(same_objects(got_iter, exp), 'iteration order differs from joining order of live agents',
+                  expected=[a.id for a in exp], observed=[getattr(a, 'id', a) for a in got_iter], trace=trace[-12:])
+
+        def look_listing():
+            check(same_objects(env.get_agents(), exp), 'get_agents() differs from the live agents in joining order', trace=trace[-12:])
+
+        def look_ids():
+            for i_ in rng.sample(ids, min(2, len(ids))):
+                check(env.get_agent(i_) is ref.get(i_), f'get_agent({i_!r}) returned the wrong object', trace=trace[-12:])
+
+        # the accessors are consulted in a different order at every look, and now and then only one of them before the others follow (an
+        # accessor that refreshes what another one relies on must not be what keeps the other one right)
+        looks = [look_len, look_iter, look_listing, look_ids]
+        rng.shuffle(looks)
+        for f_ in looks:
+            f_()
+        ctx.count('looks_starting_with_' + looks[0].__name__[5:])
         listing = env.get_agents()
-        check(same_objects(listing, exp), 'get_agents() differs from the live agents in joining order', trace=trace[-12:])
         if exp and len(exp) <= 10 and rng.random() < 0.25:
             # several iterations in progress at once (nested loops, zip, a half-consumed iterator): each visits the live agents in joining order
             pairs = [(a, b) for a in env for b in env]
@@ -346,6 +364,9 @@ def case_history(ctx, case):
             continue
         compare()
         probes()
+        # the LAST thing anybody asks before the next change is, at random, one of the accessors (what a look leaves behind - a list built
+        # for the last question, a counter refreshed by it - must not be what the next answer depends on)
+        rng.choice([env.get_agents, lambda: len(env), lambda: list(env), lambda: env.get_agent(rng.choice(ids)), lambda: None])()
     # a join that fails HALF-WAY (one of the newcomer's components was registered by hand before, so its registration is refused with
     # the documented KeyError): whatever the outcome for the newcomer, the views of the environment still agree with each other
     from vlib import faults
